@@ -243,6 +243,16 @@ func c13Variants(rng *gen.Rng, i int) ([]c13Variant, [][]byte) {
 		add("inline-subroutine-declared-in-loop-called-after", w, nil, cmdFind(wrapPS(b, gen.SubCall{Name: "sx"})...))
 		add("inline-subroutine-declared-in-loop-called-after+same-named-stored-pattern", w, []gen.Global{shadow}, cmdFind(wrapPS(b, gen.SubCall{Name: "sx"})...))
 	}
+	// a stored pattern WITH A PREDICATE used inside another stored pattern keeps its predicate: referenced through
+	// the outer pattern it matches what it matches when referenced directly in the same place
+	{
+		pr := gen.PredLib[rng.Intn(len(gen.PredLib))]
+		inner := gen.Global{Name: "gp", Body: []gen.Node{gen.Loop{Min: 1, Max: 2, Form: "between", Body: gen.Class{Kind: "letter"}}}, Pred: &pr}
+		outer := gen.Global{Name: "go", Body: wrapPS(gen.GlobalRef{Name: "gp"})}
+		w := add("predicate-pattern-referenced-directly", -1, []gen.Global{inner}, cmdFind(wrapPS(gen.GlobalRef{Name: "gp"})...))
+		add("predicate-pattern-inside-another-stored-pattern", w, []gen.Global{inner, outer}, cmdFind(gen.GlobalRef{Name: "go"}))
+		add("predicate-pattern-inside-another-stored-pattern-twice", -1, []gen.Global{inner, outer}, cmdFind(gen.GlobalRef{Name: "go"}, gen.Loop{Min: 0, Max: 1, Form: "maybe", Body: gen.GlobalRef{Name: "go"}}))
+	}
 	// three commands sharing one definition == concatenation of the commands taken alone
 	c3 := cmdFind(gen.Or{Alts: []gen.Node{gen.Lit{S: "b"}, gen.GlobalRef{Name: "gx"}}}, gen.Loop{Min: 0, Max: 1, Form: "maybe", Body: gen.GlobalRef{Name: "gx"}})
 	if !subDup {
@@ -270,7 +280,7 @@ func C13(r *drv.Run) {
 	if !quick(r) {
 		nbody, nhist = 20000, 2500
 	}
-	r.Rule = "(1) capture-free bodies B (with or, in, not in, loops, nested and recursive subroutines) in contexts prefix/suffix, inside a loop, inside an alternation: B in place == {B}=s (+0..2 calls) == set g to pattern B referenced 1..3 times, also referenced before AND inside a counted loop (exactly 2 / at least 2 / between 3 and 4), first mentioned inside a zero-count loop and then used, a stored pattern built on another one whose name is defined again before the command, an inline subroutine of the command named like one inside the stored pattern, every inline-subroutine variant again next to an unrelated stored pattern of the same name, an inline subroutine declared inside a loop and called after it, all also judged by the reference matcher; (2) a three-command source sharing one definition == concatenation of its commands compiled alone; a source that defines the name AGAIN with another body between its commands == concatenation of each command compiled alone with the definition in force where it stands; (3) recorded sequential histories of Compile/Run calls in random order over a pool of sources (including sources whose compilation fails in the parser, the regex sub-parser, the generator and the type checker) and texts, checked offline against the pure-function model: each call's result digest equals the digest the same call produced alone in a fresh worker process; (4) canonical bytecode digest (loop ids normalised) unchanged by runs and equal across recompilations. Non-trivial = variant pair with >= 1 match compared / history call whose isolated result has >= 1 match; distinct by (variant source, text) and (history, call index)."
+	r.Rule = "(1) capture-free bodies B (with or, in, not in, loops, nested and recursive subroutines) in contexts prefix/suffix, inside a loop, inside an alternation: B in place == {B}=s (+0..2 calls) == set g to pattern B referenced 1..3 times, also referenced before AND inside a counted loop (exactly 2 / at least 2 / between 3 and 4), first mentioned inside a zero-count loop and then used, a stored pattern built on another one whose name is defined again before the command, an inline subroutine of the command named like one inside the stored pattern, every inline-subroutine variant again next to an unrelated stored pattern of the same name, an inline subroutine declared inside a loop and called after it, a stored pattern with a predicate used inside another stored pattern, all also judged by the reference matcher; (2) a three-command source sharing one definition == concatenation of its commands compiled alone; a source that defines the name AGAIN with another body between its commands == concatenation of each command compiled alone with the definition in force where it stands; (3) recorded sequential histories of Compile/Run calls in random order over a pool of sources (including sources whose compilation fails in the parser, the regex sub-parser, the generator and the type checker) and texts, checked offline against the pure-function model: each call's result digest equals the digest the same call produced alone in a fresh worker process; (4) canonical bytecode digest (loop ids normalised) unchanged by runs and equal across recompilations. Non-trivial = variant pair with >= 1 match compared / history call whose isolated result has >= 1 match; distinct by (variant source, text) and (history, call index)."
 	r.Assumptions = []string{
 		"bodies are capture-free, as the property says",
 		"a body that itself declares subroutines is not duplicated textually (two declarations of one name are rejected by design)",
